@@ -165,7 +165,7 @@ fn wrap(class: Node) -> Vec<Node> {
 pub fn c12(run: &mut Run) -> Stats {
     let thorough = run.thorough();
     let hays: Vec<Hay> = enumerate::all_hays(&universe(), 2);
-    let cfg = Cfg { pid: "C12", sig: class_features, prop: Prop::C01, fuel: 2_000_000, ref_limit: 3_000_000, k_ratio: 256 };
+    let cfg = Cfg { pid: "C12", sig: class_features, prop: Prop::C01, fuel: 2_000_000, ref_limit: 3_000_000, k_ratio: 256, sparse_starts: false };
     let known = run.known.clone();
     // (A) enumerated class expressions
     let vcs = v_classes(if thorough { 2 } else { 1 }, thorough);
